@@ -18,7 +18,7 @@ LEVEL = "exploration"
 RULE = ("every registered dimension, prefix and unit (full sweep) and sampled compound/prefixed units from C13's space x "
         "codecs {pickle protocols 2-5, cloudpickle, copy, deepcopy, MeasuredJSONEncoder/Decoder, codecs_installed(), "
         "pydantic TypeAdapter python + JSON mode}; quantities with int/float/Decimal magnitudes additionally through the "
-        "SQL composite form; the same blobs loaded in a *fresh* interpreter; and dump -> name/alias -> load histories.  "
+        "SQL composite form; the same blobs loaded in a *fresh* interpreter; dump -> name/alias -> load histories, and decode-a-text -> declare-that-symbol -> round-trip histories.  "
         "distinct = (codec, object) resp. (codec, unit shape class, magnitude type); non-trivial = object is not "
         "Number / IdentityPrefix / One")
 ASSUMPTIONS = [
@@ -242,6 +242,49 @@ def run(ctx):
             ctx.violation("C15:stale-blob-reverts-names:prefix", f"dumps(p); Prefix(..., name={pn!r}); loads(blob) left p.name = {p_anon.name!r}", {})
             p_anon.name = p_anon.symbol = pn
 
+    # ---- decode -> declare that very symbol -> round trip, in one process ------------------------------
+    # a document decoded earlier in the process wrote a unit as text that resolved as prefix + symbol; a unit
+    # with exactly that symbol is declared afterwards; a quantity of the new unit must still round-trip
+    abc = "abcdefghijklmnopqrstuvwxyz"
+    qcodecs = ("json", "codecs_installed", "pydantic-python", "pydantic-json", "pydantic-json-mode-python")
+    for k in range(4 if ctx.tier == "quick" else 40):
+        sym = "zqv" + abc[ctx.shard % 26] + abc[k % 26] + abc[k // 26]
+        base = Unit.define(m.Length, f"zqc15v{ctx.shard}k{k}", sym)
+        pfx = pools.prefixes[rng.choice(["kilo", "milli", "mega", "hecto", "kibi"])]
+        text = pfx.symbol + sym
+        if text in Unit._by_symbol:
+            continue
+        decoders = {
+            "json": lambda t: json.loads(json.dumps({"__measured__": "Quantity", "magnitude": 2, "unit": t}), cls=MeasuredJSONDecoder),
+            "composite": lambda t: Q(2, t),
+            "pydantic": lambda t: adapters[Q].validate_python({"magnitude": 2, "unit": t}),
+        }
+        how = rng.choice(sorted(decoders))
+        try:
+            early = decoders[how](text)
+        except Exception as e:
+            ctx.count(f"histories/decode-declare-roundtrip/early-decode-raised/{type(e).__name__}")
+            continue
+        if early.unit is not pfx * base:
+            ctx.violation("C15:quantity-text-decoded-to-another-unit", f"{how}: unit text {text!r} decoded to {early.unit!r}", {"text": text})
+        nu = Unit.define(m.Length, f"zqc15w{ctx.shard}k{k}", text)
+        for mag in (3, 2.5, Decimal("1.25")):
+            q = Q(mag, nu)
+            outs = {c: codecs[c] for c in qcodecs}
+            outs["composite"] = lambda x: Q(*x.__composite_values__())
+            for cname, f in outs.items():
+                ctx.count("evaluations")
+                ctx.count("histories/decode-declare-roundtrip")
+                ctx.distinct(("decode-declare-roundtrip", how, cname, type(mag).__name__, k))
+                try:
+                    y = f(q)
+                except Exception as e:
+                    ctx.violation(f"C15:{cname}:raised-{type(e).__name__}:quantity", f"{cname} round trip of {q!r} raised {e}", {"text": text, "earlier": how})
+                    continue
+                if not (isinstance(y, Q) and y.unit is nu and y == q and type(y.magnitude) is type(mag)):
+                    ctx.violation(f"C15:{cname}:quantity-value-changed", f"after {text!r} was decoded (by {how}) before the unit with that symbol was declared: "
+                                  f"{cname} round trip of {q!r} returned {y!r}", {"text": text, "earlier": how})
+
     # ---- cross-process: load in a fresh interpreter ------------------------------------------------------
     if ctx.shard == 0:
         items = []
@@ -278,3 +321,4 @@ def run(ctx):
                 ctx.violation(f"C15:cross-process:{item['codec']}:names-changed:{item['kind']}", f"loading {label} in a fresh process changed its names", {"item": item["term"], "codec": item["codec"]})
     ctx.require("evaluations", 500)
     ctx.require("histories/dump-name-load/unit", 4)
+    ctx.require("histories/decode-declare-roundtrip", 10)
